@@ -211,6 +211,7 @@ type Conn struct {
 	connectionClosedByUser bool
 	closeLock              sync.Mutex
 	closed                 *closer.Closer
+	closeNotifySent        atomic.Bool
 
 	readDeadline  *deadline.Deadline
 	writeDeadline *deadline.Deadline
@@ -2286,6 +2287,11 @@ func (c *Conn) recvHandshake() <-chan dtlshandshake.RecvHandshakeState {
 }
 
 func (c *Conn) notify(ctx context.Context, level alert.Level, desc alert.Description) error {
+	// close_notify goes out once per connection, whether it answers the peer's
+	// close_notify or announces the application's Close; the two can race.
+	if desc == alert.CloseNotify && !c.closeNotifySent.CompareAndSwap(false, true) {
+		return nil
+	}
 	common := dtlsstate.CommonState(c.state)
 	if level == alert.Fatal && len(common.SessionID) > 0 { //nolint:nestif
 		if common.LocalVersion == protocol.Version1_2 {
